@@ -74,6 +74,58 @@ impl VisitMut for TsEraser {
         e.visit_mut_children_with(self);
     }
 
+    fn visit_mut_simple_assign_target(&mut self, t: &mut SimpleAssignTarget) {
+        // `(x as T) = v`, `x! = v`, `(x satisfies T) = v`: the wrappers vanish with the types
+        loop {
+            let inner = match t {
+                SimpleAssignTarget::TsAs(x) => Some(x.expr.clone()),
+                SimpleAssignTarget::TsNonNull(x) => Some(x.expr.clone()),
+                SimpleAssignTarget::TsTypeAssertion(x) => Some(x.expr.clone()),
+                SimpleAssignTarget::TsSatisfies(x) => Some(x.expr.clone()),
+                SimpleAssignTarget::TsInstantiation(x) => Some(x.expr.clone()),
+                SimpleAssignTarget::Paren(x) => match &*x.expr {
+                    Expr::TsAs(..) | Expr::TsNonNull(..) | Expr::TsTypeAssertion(..) | Expr::TsSatisfies(..) | Expr::TsInstantiation(..) | Expr::Paren(..) | Expr::Ident(..) | Expr::Member(..) => Some(x.expr.clone()),
+                    _ => None,
+                },
+                _ => None,
+            };
+            let Some(mut inner) = inner else { break };
+            // peel expression-level wrappers first
+            loop {
+                let next = match &*inner {
+                    Expr::TsAs(x) => Some(x.expr.clone()),
+                    Expr::TsNonNull(x) => Some(x.expr.clone()),
+                    Expr::TsTypeAssertion(x) => Some(x.expr.clone()),
+                    Expr::TsSatisfies(x) => Some(x.expr.clone()),
+                    Expr::TsInstantiation(x) => Some(x.expr.clone()),
+                    Expr::Paren(x) => Some(x.expr.clone()),
+                    _ => None,
+                };
+                match next {
+                    Some(n) => inner = n,
+                    None => break,
+                }
+            }
+            match *inner {
+                Expr::Ident(i) => {
+                    *t = SimpleAssignTarget::Ident(i.into());
+                }
+                Expr::Member(m) => {
+                    *t = SimpleAssignTarget::Member(m);
+                }
+                Expr::SuperProp(m) => {
+                    *t = SimpleAssignTarget::SuperProp(m);
+                }
+                other => {
+                    *t = SimpleAssignTarget::Paren(ParenExpr { span: Default::default(), expr: Box::new(other) });
+                    break;
+                }
+            }
+            break;
+        }
+        t.visit_mut_children_with(self);
+    }
+
     fn visit_mut_binding_ident(&mut self, b: &mut BindingIdent) {
         b.type_ann = None;
         b.id.optional = false;
